@@ -28,6 +28,11 @@ def scenarios(tier, seed):
                     out.append({"type": "sim", "sim": sim, "n": n, "edges": edges, "weights": None, "tau": tau, "gamma": gamma,
                                 "p": 0.6, "tmin": 0 if s % 2 else 3, "tmax": (None if kind == "SIR" else (4 if s % 2 else 7)),
                                 "init_kw": ik, "weighted": False, "seed": s * 104729 + gi})
+                    if simruns.is_discrete(sim) and kind == "SIR" and tau == 1.0:
+                        # a finite horizon that falls on the step grid: the last generation is both counted and recorded
+                        out.append({"type": "sim", "sim": sim, "n": n, "edges": edges, "weights": None, "tau": tau, "gamma": gamma,
+                                    "p": 0.8, "tmin": 0 if s % 2 else 3, "tmax": (0 if s % 2 else 3) + 1 + (gi + s) % 3,
+                                    "init_kw": ik, "weighted": False, "seed": s * 104729 + gi + 17})
     # tie-heavy event-driven scenarios (zero delays, simultaneous events)
     for sc in event_scn.sir_scenarios(seed, 1500 if tier == "quick" else 10000, exhaustive2=False):
         out.append({"type": "ties", "scn": sc})
